@@ -15,7 +15,7 @@ Decided here, from the two ASTs only:
 import ast, itertools
 import re._parser as sre, re._constants as sc
 from sa.util import *
-from sa import rx
+from sa import rx, sem
 L = "textx/lang.py"; MM = "textx/metamodel.py"
 from sa.pyeval import evaluate as _eval, Unsupported as _Unsup
 def _converter(mm_tree, lang_tree):
@@ -122,4 +122,69 @@ def r_C04a(root):
     if badw:
         w, got, exp = min(badw, key=lambda t: len(t[0]))
         out.append(Finding("C04", "C04.a", MM, "TextXMetaModel.__init__", "STRING converter: " + " ".join(label.split())[:120], "for the matched text %s the converter yields %r, documented value %r (%d of %d enumerated matches disagree)" % (w, got, exp, len(badw), len(words)), witness=w))
+    return inst, out
+
+# ---------------------------------------------------------------------------------------------------------------
+PY_INT = r"-?[0-9]+"                                                              # str(int)
+PY_FLOAT = r"-?(?:[0-9]+\.[0-9]+(?:e[+-][0-9]+)?|[0-9]+e[+-][0-9]+)"             # repr(float) of a finite float
+def r_C04num(root):
+    """C04.d  the numeric base-type regexes against the *writer* they must accept (Python's own int/float printing):
+       L(str(int)) within L(INT);  L(repr(finite float)) within L(FLOAT) and within L(STRICTFLOAT)  (core languages: the
+       zero-width context assertions at the end of the patterns are set aside and must be the same two for both float
+       patterns);  no digit-only prefix is in L(STRICTFLOAT) (else NUMBER = STRICTFLOAT | INT takes part of an int).
+       Decided by product construction on the regex automata (sa/rx.py); nothing is matched at run time."""
+    out = []; inst = 0
+    lang = load(root, L); regs = {}
+    for n in lang.body:
+        if isinstance(n, ast.Assign) and isinstance(n.value, ast.Call) and getattr(n.value.func, "id", None) == "_" and isinstance(n.targets[0], ast.Name):
+            regs[n.targets[0].id] = const_str(n.value.args[0], lang)
+    for k in ("INT", "FLOAT", "STRICTFLOAT"):
+        if regs.get(k) is None: raise AnalysisError("regex of base type %s not found as a constant string" % k)
+    nf = {k: rx.Nfa(regs[k], drop_trailing_assertions=True) for k in ("INT", "FLOAT", "STRICTFLOAT")}
+    def need(sub_pat, sub_name, k):
+        nonlocal inst
+        inst += 1
+        ok, w = rx.included_nfa(rx.Nfa(sub_pat), nf[k])
+        ob("C04", "C04.d", L, k, "%s within L(%s)" % (sub_name, k), ok)
+        if not ok: out.append(Finding("C04", "C04.d", L, k, regs[k][:90], "%s is not accepted by %s: %r is printed by Python but not in the language of the pattern" % (sub_name, k, w), witness="value %s" % w))
+    need(PY_INT, "str(int)", "INT"); need(PY_FLOAT, "repr(float)", "FLOAT"); need(PY_FLOAT, "repr(float)", "STRICTFLOAT")
+    inst += 1
+    w = rx.common_word(rx.Nfa(r"[-+]?[0-9]*"), nf["STRICTFLOAT"])
+    ob("C04", "C04.d", L, "STRICTFLOAT", "no sign/digit-only word in L(STRICTFLOAT)", w is None)
+    if w is not None: out.append(Finding("C04", "C04.d", L, "STRICTFLOAT", regs["STRICTFLOAT"][:90], "STRICTFLOAT accepts %r, which has neither '.' nor exponent: NUMBER (STRICTFLOAT before INT) turns integers into floats" % w, witness=w))
+    inst += 1
+    same = nf["FLOAT"].dropped == nf["STRICTFLOAT"].dropped
+    ob("C04", "C04.d", L, "FLOAT/STRICTFLOAT", "same trailing context assertions", same)
+    if not same: out.append(Finding("C04", "C04.d", L, "STRICTFLOAT", regs["STRICTFLOAT"][-40:], "FLOAT and STRICTFLOAT end in different context assertions: the same number text is delimited differently by the two rules"))
+    return inst, out
+MUTATORS = {"update", "pop", "popitem", "clear", "setdefault", "__setitem__", "__delitem__", "append", "extend", "insert", "remove"}
+def r_C04defaults(root):
+    """C04.e  the table of built-in conversions (self._default_obj_processors) is written only while it is built in
+       __init__: no other method mutates it, directly or through a local alias, and no other attribute is bound to the
+       table itself (only to a copy) — otherwise a user registration for a base type replaces the built-in conversion
+       for good and a later registration without that key does not bring it back."""
+    out = []; inst = 0
+    t = load(root, MM); cls = find(t, "TextXMetaModel")
+    for fn in [f for f in cls.body if isinstance(f, ast.FunctionDef) and f.name != "__init__"]:
+        fi = None
+        def is_table(e, at):
+            nonlocal fi
+            fi = fi or sem.info(fn)
+            x = fi.expand(e, at=at)
+            return isinstance(x, ast.Attribute) and x.attr.startswith("_default_") and isinstance(x.value, ast.Name) and x.value.id == "self"
+        for n in own_nodes(fn):
+            bad = None
+            if isinstance(n, ast.Call) and isinstance(n.func, ast.Attribute) and n.func.attr in MUTATORS and isinstance(n.func.value, (ast.Name, ast.Attribute)) and is_table(n.func.value, n): bad = "the built-in table is mutated through %s" % ast.unparse(n.func.value)
+            elif isinstance(n, (ast.Assign, ast.AugAssign, ast.Delete)):
+                tgs = n.targets if isinstance(n, (ast.Assign, ast.Delete)) else [n.target]
+                for tg in tgs:
+                    if isinstance(tg, ast.Subscript) and isinstance(tg.value, (ast.Name, ast.Attribute)) and is_table(tg.value, n): bad = "an entry of the built-in table is overwritten"
+                    elif isinstance(tg, ast.Attribute) and isinstance(n, ast.Assign) and isinstance(n.value, (ast.Name, ast.Attribute)) and is_table(n.value, n) and not tg.attr.startswith("_default_"): bad = "self.%s is bound to the built-in table itself, not to a copy" % tg.attr
+            if bad:
+                inst += 1
+                out.append(Finding("C04", "C04.e", MM, "TextXMetaModel." + fn.name, " ".join(ast.unparse(n).split())[:100], bad + ": a processor registered for INT/FLOAT/BOOL/STRING replaces the default conversion permanently", witness="register_obj_processors({'INT': f}) then register_obj_processors({}) on the same metamodel"))
+    reads = [n for n in ast.walk(cls) if isinstance(n, ast.Attribute) and n.attr.startswith("_default_")]
+    inst += len(reads)
+    if not reads: raise AnalysisError("no _default_* table found in TextXMetaModel")
+    ob("C04", "C04.e", MM, "TextXMetaModel", "%d uses of the built-in tables outside __init__ are reads or copies" % len(reads), not out)
     return inst, out
